@@ -14,7 +14,7 @@ Qed.
 Lemma areas_mass_nondeg v ts : tria_nondeg v ts -> tria_areas_mass Rops v ts = map (fun x => x / 4) (map (tria_vol4_raw Rops v) ts).
 Proof.
   intros H. unfold tria_areas_mass. rewrite !map_map. apply map_ext_in. intros t Ht.
-  unfold tria_nondeg in H. rewrite Forall_forall in H. specialize (H t Ht). apply Rltb_false in H. pose proof eps52_pos as E.
+  unfold tria_nondeg in H. rewrite Forall_forall in H. specialize (H t Ht). cbv beta in H.
   rewrite area_raw_quarter. cbn [eqb zero Rops].
   destruct (Reqb (tria_vol4_raw Rops v t / 4) 0) eqn:Q; [apply Reqb_true in Q; lra|reflexivity].
 Qed.
